@@ -1,3 +1,112 @@
+import Invoke.Model.Program
+import Invoke.Lemmas.ParserWF
 import Driver.Util
-/-! stub: replaced by the owner of this driver -/
-def main : IO Unit := Drv.mainLoop (fun _ => "bad-op")
+/-! Line-protocol driver for the argv parser model (C07) and the two-pass Program parse (C18).
+
+  One input line = one parser specification + a batch of argvs, one output line = the batch of outcomes.
+
+    P <initial> <registry> <ign> <argvs>      Parser(contexts, initial, ignore_unknown).parse_argv for each argv
+    G <core> <registry> <argvs>               Program: core pass, task pass, _update_core_context, overrides
+
+  encoding (every string as decimal char codes joined by '.', "" = empty string):
+    ctx      = <name or ~>|<alias,alias>|<spec;spec>          initial "~" = None
+    spec     = names(,)/kind/default/pos/opt/inc/attr(~ = none)
+    default  = n | s:<str> | i:<int> | b:0|1 | l:<str,str>
+    registry = ctx&ctx   ("~" = empty)
+    argvs    = argv;argv   argv = tok,tok ("~" = empty list)
+  output: W<0|1>;<outcome>;<outcome>...    (W = the spec satisfies the decidable WF predicate of the C07 theorems)
+    outcome  = OK:<ctx>&<ctx>:U<tok,tok>:R<str>  |  E:parse:<kind>  |  E:other:<cls>:<site>  |  E:fuel
+    ctx      = <name or ~>{key=val,key=val}      val = N | s<str> | i<int> | b0|b1 | l<n>[/<str>]*   -/
+open Inv Drv
+
+def decTok (s : String) : Tok := decChars s
+def decOptTok (s : String) : Option Tok := if s == "~" then none else some (decTok s)
+def decList (sep : String) (s : String) : List String := if s == "" then [] else s.splitOn sep
+
+def decKind : String → Kind | "int" => .int | "bool" => .bool | "list" => .list | _ => .str
+
+def decDefault (s : String) : PVal :=
+  match s.splitOn ":" with
+  | ["n"] => .none
+  | ["s", v] => .s (decTok v)
+  | ["i", v] => match v.toInt? with | some n => .i n | none => .none
+  | ["b", v] => .b (v == "1")
+  | ["l", v] => .l ((decList "," v).map decTok)
+  | _ => .none
+
+def decSpec (s : String) : ArgSpec :=
+  match s.splitOn "/" with
+  | [names, kind, dflt, pos, opt, inc, attr] =>
+    { names := (names.splitOn ",").map decTok, kind := decKind kind, default := decDefault dflt,
+      positional := pos == "1", optional := opt == "1", incrementable := inc == "1",
+      attrName := decOptTok attr }
+  | _ => { names := [] }
+
+def decCtx (s : String) : Except Err Ctx :=
+  match s.splitOn "|" with
+  | [name, aliases, specs] =>
+    Ctx.ofSpecs (decOptTok name) ((decList "," aliases).map decTok) ((decList ";" specs).map decSpec)
+  | _ => .error (.other "Bad" "ctx")
+
+def decRegistry (s : String) : Except Err (List Ctx) :=
+  if s == "~" then .ok [] else (s.splitOn "&").mapM decCtx
+
+def decArgv (s : String) : List Tok := if s == "~" then [] else (s.splitOn ",").map decTok
+def decArgvs (s : String) : List (List Tok) := (s.splitOn ";").map decArgv
+
+def showVal : PVal → String
+  | .none => "N"
+  | .s v => "s" ++ encChars v
+  | .i v => "i" ++ toString v
+  | .b v => if v then "b1" else "b0"
+  | .l v => "l" ++ toString v.length ++ String.join (v.map fun x => "/" ++ encChars x)
+
+def showName (n : Option Tok) : String := match n with | some t => encChars t | none => "~"
+
+def showArg (a : Arg) : String :=
+  encChars (a.spec.attrName.getD (a.spec.names.headD [])) ++ "=" ++ showVal a.value
+
+def showCtx (c : Ctx) : String := showName c.name ++ "{" ++ ",".intercalate (c.args.map showArg) ++ "}"
+
+def showToks (ts : List Tok) : String := ",".intercalate (ts.map encChars)
+
+def showErr : Err → String
+  | .parse k _ => "E:parse:" ++ k
+  | .other c s => "E:other:" ++ c ++ ":" ++ s
+  | .fuel => "E:fuel"
+
+def showResult : Except Err PResult → String
+  | .ok r => "OK:" ++ "&".intercalate (r.contexts.map showCtx) ++ ":U" ++ showToks r.unparsed ++ ":R" ++ encChars r.remainder
+  | .error e => showErr e
+
+def showB (b : Bool) : String := if b then "1" else "0"
+
+def showOverrides (o : Overrides) : String :=
+  "w" ++ showB o.warn ++ "p" ++ showB o.pty ++ "e" ++ showB o.echo ++ "d" ++ showB o.dry ++ "x" ++ showB o.dedupeOff ++
+  "/h" ++ showVal o.hide ++ "/t" ++ showVal o.timeout
+
+def showProg : Except Err ProgResult → String
+  | .ok r => "OK:" ++ showCtx r.core ++ ":" ++ "&".intercalate (r.tasks.map showCtx) ++ ":U" ++ showToks r.unparsed ++
+             ":R" ++ encChars r.remainder ++ ":O" ++ showOverrides (overrides r.core)
+  | .error e => showErr e
+
+def step (line : String) : String :=
+  match line.splitOn " " with
+  | ["P", ini, reg, ign, argvs] =>
+    let initial : Except Err (Option Ctx) := if ini == "~" then .ok none else (decCtx ini).map some
+    match initial, decRegistry reg with
+    | .ok i, .ok r =>
+      let w := showB (specWF i r)
+      ";".intercalate (("W" ++ w) :: (decArgvs argvs).map fun a => showResult (parseArgv i r (ign == "1") a))
+    | .error e, _ => "BADSPEC " ++ showErr e
+    | _, .error e => "BADSPEC " ++ showErr e
+  | ["G", core, reg, argvs] =>
+    match decCtx core, decRegistry reg with
+    | .ok c, .ok r =>
+      let w := showB (specWF (some c) r)
+      ";".intercalate (("W" ++ w) :: (decArgvs argvs).map fun a => showProg (programParse c r a))
+    | .error e, _ => "BADSPEC " ++ showErr e
+    | _, .error e => "BADSPEC " ++ showErr e
+  | _ => "bad-op"
+
+def main : IO Unit := mainLoop step
